@@ -37,6 +37,11 @@ async def nm_individual_address_write(
 
     # check if the address is already occupied on the network
     individual_address = IndividualAddress(individual_address)
+    if individual_address == xknx.current_address:
+        # the check below can not find ourselves - nobody answers our own address
+        raise ManagementConnectionError(
+            f"Individual address {individual_address} is used by this interface."
+        )
     address_found = await nm_individual_address_check(xknx, individual_address)
 
     if address_found:
